@@ -19,7 +19,7 @@ def sizes (P : Prog) : String :=
 
 def answer (P P' : Prog) (e e' : Nat) : String :=
   match checkRenamingExplain P P' e e' with
-  | .ok ρ => s!"ok consts={ρ.const.length} fns={ρ.fn.length} tuples={ρ.tuple.length} types={ρ.type.length} builtins={ρ.builtin.length} resources={ρ.resource.length} exempt={exemptCount ρ P P'}"
+  | .ok ρ => s!"ok consts={ρ.const.length} fns={ρ.fn.length} tuples={ρ.tuple.length} types={ρ.type.length} builtins={ρ.builtin.length} resources={ρ.resource.length} exempt={exemptCount ρ P P'} strict={strictB ρ P P'}"
   | .error msg => s!"reject {msg}"
 
 def c10Step (st : C10State) (req : List Sx) : C10State × String :=
